@@ -437,7 +437,11 @@ fn run_case(ctx: &Ctx, case: &Case, coords: &dyn Fn() -> J, rep: &mut Report) {
         }
         let (src, _data, delivered) = crate::sut::CountRead::new(&all);
         let chunk = [usize::MAX, 1, 2, 5, 4096][(fp % 5) as usize];
-        let mut rd = H263Reader::from_source(src.with_chunk(chunk));
+        let interrupts = if (fp >> 8) % 4 == 1 { 2 + ((fp >> 12) % 5) as usize } else { 0 };
+        if interrupts > 0 {
+            rep.count("histories_over_an_interrupting_source");
+        }
+        let mut rd = H263Reader::from_source(src.with_chunk(chunk).with_interrupts(interrupts));
         for (k, c) in case.calls.iter().enumerate() {
             // domain guard at the position the next header will really be read from
             let at = crate::sut::abs_pos(&rd, &delivered);
@@ -467,6 +471,13 @@ fn run_case(ctx: &Ctx, case: &Case, coords: &dyn Fn() -> J, rep: &mut Report) {
         }
     } else {
         rep.count("history_mode=reader-per-call");
+        // the per-call sources deliver everything at once, or a few bytes per read call with `Interrupted` answers in between
+        let fp0 = case.calls.iter().fold(fp, |h, c| fnv64_more(h, &c.bytes));
+        dec.chunk = [usize::MAX, usize::MAX, 1, 3, 64][(fp0 % 5) as usize];
+        if dec.chunk != usize::MAX && (fp0 >> 8) % 2 == 1 {
+            dec.interrupt_every = 2 + ((fp0 >> 12) % 5) as usize;
+            rep.count("histories_over_an_interrupting_source");
+        }
         for (k, c) in case.calls.iter().enumerate() {
             fp = fnv64_more(fp, &c.bytes);
             if let Some((w, h)) = declared_size(&c.bytes, case.sorenson) {
@@ -775,7 +786,7 @@ pub fn run(ctx: &Ctx) -> (Report, String) {
     if ctx.is_main() {
         rep.require("decode_calls", if ctx.tier == Tier::Quick { 1_000_000 } else { 10_000_000 } * ctx.scale_pct / 100);
         rep.require("mb_loop_iterations_observed", 1_000_000 * ctx.scale_pct / 100);
-        for k in ["class=ladder-size", "class=dquant-run", "outcome=Ok", "class=mutated", "class=extra-macroblocks", "class=size-change", "class=umv-chain", "class=degenerate-header", "history_mode=one-reader", "options=sorenson:true/scal:false", "options=sorenson:false/scal:false", "options=sorenson:true/scal:true", "options=sorenson:false/scal:true"] {
+        for k in ["class=ladder-size", "class=dquant-run", "outcome=Ok", "class=mutated", "class=extra-macroblocks", "class=size-change", "class=umv-chain", "class=degenerate-header", "history_mode=one-reader", "histories_over_an_interrupting_source", "options=sorenson:true/scal:false", "options=sorenson:false/scal:false", "options=sorenson:true/scal:true", "options=sorenson:false/scal:true"] {
             rep.require(k, 100 * ctx.scale_pct / 100);
         }
     }
